@@ -18,4 +18,5 @@ var Registry = map[string]func(Args) error{
 	"isolation":   Isolation,
 	"write":       Write,
 	"immut":       Immut,
+	"dict":        Dict,
 }
